@@ -69,6 +69,17 @@ def special_programs(rng, thorough):
                   b"print 72057594037927936\n", "ints"))
     progs.append((b'def a "x" { def b "y" { z = nil; t = true; f = false } }\nbind a -> struct\nbind a:all -> slice\n', "kinds"))
     progs.append((b"", "empty"))
+    # the LAST byte(s) of the dump are the last line-table entry: sweep it over the varint size classes, so that a
+    # reader's "are enough bytes left?" logic is exercised exactly at the end of the file
+    for k in list(range(236, 246)) + list(range(2283, 2293)) + ([67820, 67823, 67824, 67826] if thorough else []):
+        progs.append((b"#" + b"x" * (k - 1) + b"\n", "lastlf%d" % k))
+        progs.append((b"print 1 #" + b"y" * (k - 9) + b"\nprint 2", "lastlf%db" % k))
+    # string constants around the scratch buffer: every length 90..100, and a grown buffer followed by slightly longer ones
+    for L in range(88, 102):
+        progs.append((b'print "' + b"s" * L + b'"\n', "strs%d" % L))
+    for base in (300, 1000):
+        for d in range(0, 12):
+            progs.append((b'var a = "' + b"a" * base + b'"\nvar b = "' + b"b" * (base + d) + b'"\n', "grow%d+%d" % (base, d)))
     # runtime error and warning positions survive
     progs.append((b"var a = 1\n\n\nprint a / 0\n", "rterr"))
     progs.append((b"def t {}\nbind t -> struct\n\nbind t:first -> slice\nprint 1\n", "warn"))
